@@ -219,7 +219,8 @@ def widened(strategy, light: bool = False, skip=None, zero_only: bool = False):
             extra = draw(st.sampled_from(LIGHT_EXTRA)) if light else draw(extra_cols_strategy())
             if len(case["J"]) > 64:
                 extra = None  # hundreds of rows AND 10^5 columns: the quadratic-in-m references would take minutes
-            if extra and extra["kind"] == "gauss" and (zero_only or not np.any(np.array(case["J"]))):
+            zo = zero_only(case) if callable(zero_only) else zero_only
+            if extra and extra["kind"] == "gauss" and (zo or not np.any(np.array(case["J"]))):
                 extra = dict(extra, kind="zero")
             case = dict(case, extra_cols=extra, xseed=draw(st.integers(0, 2**31 - 1)))
         return case
